@@ -31,8 +31,10 @@ CallAllowed(e) ==
         d == Den(G, 1, e.pres, e.slow)
     IN  CASE e.res = "err" ->
                \/ d.m # "ok"
-               \/ (e.budget >= 0 /\ \A v \in d.vs : e.budget < Len(Enc(G, 1, v)))     \* the sink refused part of the encoding
-               \* (an encoding with more blocks than the canonical one is never shorter)
+               \* the sink refused part of the encoding.  Which block layout the serializer writes is its own business (a
+               \* sequence of unknown length goes out one block per element): the error is allowed whenever SOME valid layout of
+               \* the value does not fit the budget - the longest one is policy 4 (one block per element, with byte sizes)
+               \/ (e.budget >= 0 /\ \A v \in d.vs : e.budget < Len(EncWith(G, 1, v, [p |-> 4, lvl |-> 0])))
           [] e.res = "ok" ->
                /\ d.m # "err"
                /\ (d.any \/ \E v \in d.vs : IsEncodingOf(G, e.bytes, v))
